@@ -146,7 +146,7 @@ struct Sweep
     for (int k = 0; k < IT__COUNT; ++k)
     {
       if (! e.it_supported (k)) continue;
-      if (level == 0 && (k == IT_BIDI || k == IT_RAND || k == IT_VEC || k == IT_SVIT || k == IT_FWD_INT)) continue;
+      if (level == 0 && (k == IT_BIDI || k == IT_RAND || k == IT_VEC || k == IT_SVIT || k == IT_FWD_INT || k == IT_RAND_VAL)) continue;
       r.push_back (k);
     }
     return r;
